@@ -31,8 +31,12 @@
 (*   Convert(i), Call(side, binding), Rebind(side, name, how),             *)
 (*   ReadBack(side, name), MutateDefault(side, slot), RebindGlobal(side).  *)
 (* A scenario (signature x default kinds x entity kind x closure shape) is *)
-(* picked by two setup actions so that -simulate never has to enumerate    *)
-(* the whole scenario space as initial states.                             *)
+(* picked by two setup actions so that random generation (TLC -generate)   *)
+(* never has to enumerate the scenario space as initial states.            *)
+(* Deliberate deviation from the code: instantiate() raises "closure       *)
+(* mismatch" when the regenerated factory references fewer free variables  *)
+(* than the source function; the property allows such a cell to be absent  *)
+(* from g, and so does Instantiate here (see notes/C09.md, known finding). *)
 (*                                                                         *)
 (* TLC checks the laws on the model (Agree, AgreeCalls, NoCrossTalk,       *)
 (* SideEffectsOnce) and prints every complete behaviour with the expected  *)
@@ -51,9 +55,8 @@ CONSTANTS MaxPO,      \* positional-only parameters 0..MaxPO  (<= 2)
           Depth,      \* number of actions after the scenario is set up
           DKSet,      \* subset of {"list", "obj", "mixed"}: kinds of default values
           PreSet,     \* subset of BOOLEAN: TRUE = g is made right after the definitions, FALSE = by a Convert step
-          Mode,       \* "bind": every binding, on g;  "bindc": on g and the convert() wrapper;  "env": the minimal
-                      \* call only;
-                      \* "sim": everything, for random behaviours (TLC -generate)
+          Mode,       \* call bindings: "bind" every binding, on g;  "bindc" on g and the convert() wrapper;
+                      \* "env" the minimal call only;  "sim" everything, for random behaviours (TLC -generate)
           MaxKw,      \* keyword arguments per call <= MaxKw
           Variant     \* "ok" (the code) | "bypos" (cells matched by position: a wrong design, for the self test)
 
@@ -63,7 +66,8 @@ KONames   == <<"k", "m">>
 FreeNames == <<"v0", "v1", "v2">>
 AllKinds  == {"def", "lambda", "method", "nested", "loopdef", "decorated"}
 DKs       == {"list", "obj", "mixed"}
-ASSUME Kinds \subseteq AllKinds /\ DKSet \subseteq DKs /\ PreSet \subseteq BOOLEAN /\ MaxPO <= 2 /\ MaxP <= 2 /\ MaxKO <= 2 /\ MaxFree <= 3
+ASSUME /\ Kinds \subseteq AllKinds /\ DKSet \subseteq DKs /\ PreSet \subseteq BOOLEAN
+       /\ MaxPO <= 2 /\ MaxP <= 2 /\ MaxKO <= 2 /\ MaxFree <= 3
 
 VARIABLES phase,   \* "sig" -> "env" -> "conv" -> "run"
           sc,      \* the scenario
